@@ -7,7 +7,10 @@ Sub-checks
     edge_years  the same oracle on every day of five whole years (both tiers; deterministic)
     all_days    the same oracle on EVERY day of [1900-01-01, 2300-01-01) (146 097 specs; time of day derived from the ordinal)
     overflow    dt(y, m, d) for one (y, m) and ALL d in [-400, 400]; quick samples (y, m), thorough enumerates all
-                400 years x 85 months (34 000 specs = 27 234 000 triples)
+                400 years x 85 months (34 000 specs = 27 234 000 triples); every 16th triple again in other raw number types
+    session     state carried between calls: the spellings of one instant are built once and 2-5 calls of dt / ymd are made on a pool of
+                1-3 of those objects (same text under both dialects in either order, repeated calls, ymd before dt, prefix-related texts);
+                every call is judged by the single-call oracle. A spec is {o, sec, us, sep, calls: [[kind, dialect, 'dt'|'ymd'], ...]}
 
 A spec of spellings/all_days is  [ordinal, seconds of the day, microseconds]  (+ optional 4th element True = also
 evaluate the input class that is excluded as a known defect, see UK_FRACTION below). All strings are built here with
@@ -23,19 +26,27 @@ ASSUMPTIONS = [
     'days in [1900-01-01, 2300-01-01), naive datetimes (tzinfo None), dialect in {uk, us}',
     'day and month fields of strings are zero-padded to two digits and the year has four digits (strftime spelling); unpadded / two-digit-year strings are outside the claim (DESIGN section 4)',
     'separators {-,/,.,space} are applied to the day-month-year and month-day-year strings; "ISO" is yyyy-mm-dd[Thh:mm:ss[.ffffff]] only',
-    'month names are the English full names and 3-letter abbreviations, in the spellings "dd Month yyyy", "Month dd, yyyy", "dd-Mon-yyyy" (capitalised; the first and third also in upper and lower case)',
+    'month names are the English full names and 3-letter abbreviations, in the spellings "dd Month yyyy", "Month dd, yyyy", "dd-Mon-yyyy", "dd Mon yyyy" (capitalised; the first and third also in upper and lower case)',
     'a fraction of a second in a string has 1 to 9 digits and means a decimal fraction; digits beyond the sixth are zeros (sub-microsecond instants are not datetimes)',
-    'time parts of dt(y, m, d, ...) are a prefix of (h, mi, s): 3, 4, 5 or 6 positional ints',
+    'time parts of dt(y, m, d, ...) are a prefix of (h, mi, s): 3, 4, 5 or 6 positional numbers; each number is a python int, a numpy int64 / int32 or an integer-valued python float / '
+    'numpy float64 (one number in several raw types; month(), ym() and _ymd() normalise integer-valued floats explicitly). Parts inside a list / tuple are not a spelling of the statement',
+    'dt(list) / dt(range) (element-wise mapping), the keywords none= and tzinfo=, dt2str with a format and dt(t, *bumps) are other features: the statement quantifies over single spellings, '
+    'the two dialects and the default format only',
     'dialect is spelled "uk" / "us" (tests) or "US" (docstring); dialect="UK" is NOT asserted - the library reads every dialect other than lower-case "uk" as US (candidate defect, reported)',
-    'numpy integers (np.int64 yyyymmdd / ordinal) are NOT asserted: dt(np.int64(20000110)) raises TypeError in num2dt (candidate defect, reported); the statement says "integer"',
+    'a single numpy INTEGER (np.int64 yyyymmdd / ordinal) is NOT asserted: dt(np.int64(20000110)) raises TypeError in num2dt (candidate defect, reported; DESIGN 8.2 lists it as outside the statement); '
+    'the yyyymmdd number and the ordinal are passed as python int and as the integer-valued python float / numpy float64 (num2dt reads int(n) and keeps n - int(n) as a fraction of a day); '
+    'texts are python str and numpy str_',
     'lossless (microsecond) spellings: datetime, pd.Timestamp, datetime64[us], datetime64[ns], ISO string with fraction, dd-mm-yyyy / mm-dd-yyyy strings with hh:mm:ss.ffffff, dt2str round trip; '
     '(y,m,d,h,mi,s) and hh:mm:ss strings carry whole seconds; coarser datetime64 units are compared with the instant truncated to the unit',
     'datetime64[ns] only for days before 2262-04-11 (numpy cannot represent later instants in ns)',
     'integers: only the yyyymmdd integer and the proleptic ordinal are claimed; excel serials, year numbers, unix timestamps and today-offsets are not part of the statement',
     'wrong-dialect rejection is demanded only for day > 12 (with day <= 12 the other reading is a valid date and is what the statement calls ambiguous)',
-    'overflow: plain python ints for y in [1900, 2299], m in [-36, 48], d in [-400, 400]',
-    'EXCLUDED BY CONSTRUCTION (genuine defect, see UK_FRACTION): UK-dialect dd-mm-yyyy string with a fractional-seconds time when day <= 12 loses the microseconds; '
-    'the generators never ask for it, a spec with a 4th element true does (replays/C04/pending/)',
+    'overflow: y in [1900, 2299], m in [-36, 48], d in [-400, 400]; every triple as plain python ints, every 16th day also as numpy int64 / int32 / integer-valued float / numpy float64 (mixed)',
+    'session: calls are dt / ymd with one spelling and a dialect; a numeric day/month text read in the dialect it was not written for is judged as the spelling of year-day-month when day <= 12 '
+    '(that date lies in the same year, hence in the domain) and must raise ValueError when day > 12 (also through ymd, which is dt followed by a truncation); '
+    'state is whatever the library keeps between calls - the check does not reset anything, it only opens every session with five fixed calls so that a replay starts from the same history',
+    'LIFTED (was excluded by construction as a genuine defect, see UK_FRACTION; repaired in /repo by d325e52): UK-dialect dd-mm-yyyy string with a fractional-seconds time when day <= 12; '
+    'INCLUDE_UK_FRACTION_LOW_DAYS is True, so spellings, edge_years, all_days and session all ask for it (False restores the exclusion; a spellings spec with a 4th element true asks for it regardless)',
 ]
 
 # flip to True once uk2dt keeps the microseconds (then the generated cases include the class again)
@@ -108,6 +119,21 @@ def run_day(spec):
         what = 'dt(pd.Timestamp(%r).as_unit("ns"))' % str(t)
         _same(what, call(what, dt, ts.as_unit('ns')), t)
 
+    # ---- one number / one text / one stamp in several raw types (python int, numpy int64 / int32, integer-valued python float / numpy float64; numpy str_;
+    #      pandas Timestamp in second / millisecond resolution). The rotation depends on the ordinal, so one call mixes several types
+    num = (int, np.int64, float, np.int32, np.float64)
+    parts = (y, m, d, h, mi, s)
+    for n in (3, 6, 4, 5)[:2 + o % 3]:
+        args = [num[(o + n + i) % 5](v) for i, v in enumerate(parts[:n])]
+        one(dt, 'dt', DT(*parts[:n]), *args)
+    one(dt, 'dt', day0, (float, np.float64)[o % 2](y * 10000 + m * 100 + d))
+    one(dt, 'dt', day0, (np.float64, float)[o % 2](o))
+    one(ymd, 'ymd', day0, (float, np.float64)[(o // 2) % 2](o))
+    one(ymd, 'ymd', day0, *[num[(o + i) % 5](v) for i, v in enumerate(parts[:3])])
+    for unit, exp in (('s', tsec), ('ms', DT(y, m, d, h, mi, s, us - us % 1000))):
+        what = 'dt(pd.Timestamp(%r).as_unit(%r))' % (str(exp), unit)
+        _same(what, call(what, dt, pd.Timestamp(exp).as_unit(unit)), exp)
+
     # ---- dialect-independent strings, read in both dialects
     hms = '%02d:%02d:%02d' % (h, mi, s)
     frac = '%s.%06d' % (hms, us)
@@ -120,6 +146,8 @@ def run_day(spec):
     both(tsec, '%02d %s %04d %s' % (d, MONTHS[m - 1], y, hms))
     both(day0, '%s %02d, %04d' % (MONTHS[m - 1], d, y))
     both(day0, '%02d-%s-%04d' % (d, MONTHS[m - 1][:3], y))
+    both(day0, '%02d %s %04d' % (d, MONTHS[m - 1][:3], y))           # blank-separated abbreviation ('13 Dec 2100': digits, blank, a letter that is also a tenor unit)
+    one(dt, 'dt', tsec, '%02d %s %04d %s' % (d, MONTHS[m - 1][:3], y, hms), **(dict(dialect='us') if o % 2 else {}))
     # ISO 'T' strings with a fraction of 1-5 and 7-9 digits (isoformat(timespec='milliseconds'), str(np.datetime64(t, 'ms' / 'ns'))):
     # the fraction is a decimal fraction of a second, whatever its length; digits beyond the microsecond are zeros here
     digits = '%06d000' % us
@@ -164,6 +192,17 @@ def run_day(spec):
                 must_raise('dt(%r) [uk dialect, month-day-year string]' % text, ValueError, dt, text)
             for text in (dmy, dmy + ' ' + hms):
                 must_raise('dt(%r, dialect="us") [day-month-year string]' % text, ValueError, dt, text, dialect='us')
+
+    # ---- numpy strings (np.str_ is a str for the library: is_str): one separator per day
+    sep = SEPS[(o // 4) % 4]
+    dmy = '%02d%s%02d%s%04d' % (d, sep, m, sep, y)
+    mdy = '%02d%s%02d%s%04d' % (m, sep, d, sep, y)
+    one(dt, 'dt', t, np.str_(ymd_ + 'T' + frac))
+    one(dt, 'dt', tsec, np.str_(dmy + ' ' + hms))
+    one(dt, 'dt', day0, np.str_(mdy), dialect='us')
+    if d > 12:
+        must_raise('dt(np.str_(%r)) [uk dialect, month-day-year string]' % mdy, ValueError, dt, np.str_(mdy))
+        must_raise('dt(np.str_(%r), dialect="us") [day-month-year string]' % dmy, ValueError, dt, np.str_(dmy), dialect='us')
 
     # ---- dt2str round trips (midnight -> yyyymmdd, intraday -> iso; both are dt2str's business, only the round trip is claimed)
     for x in (t, tsec, day0):
@@ -218,6 +257,13 @@ def run_day(spec):
         cls.append('last_microsecond_of_day')
     if h == 0 and (mi or s or us):
         cls.append('hour=0_time!=0')
+    cls.append('numbers_and_texts_in_mixed_raw_types')   # by construction in every case (see the raw-type block above)
+    if d == _dim(y, m):
+        cls.append('month_end')
+        if d >= 30:
+            cls.append('month_end_30th_or_31st')
+        if d == 28:
+            cls.append('28feb_of_a_non_leap_year')      # the last day of its month AND a day every month has
     return dict(nt=bool(ambiguous or leap_day or year_boundary or (century and (m, d) in ((2, 28), (3, 1)))), cls=cls)
 
 
@@ -239,6 +285,7 @@ _day = st.one_of(
     st.tuples(_years, st.integers(1, 12), st.integers(12, 14)),          # around the 12/13 threshold
     st.tuples(st.sampled_from(_LEAP_YEARS), st.just(2), st.just(29)),
     st.tuples(_years, st.just(2), st.integers(28, 29)),
+    st.tuples(_years, st.integers(1, 12), st.sampled_from([28, 29, 30, 31, 31])),   # month ends (clamped to the month by _ordinal): 28 Feb of non-leap years, 30th / 31st
     st.tuples(_years, st.sampled_from([(1, 1), (12, 31), (12, 1), (1, 31), (3, 1)])).map(lambda t: (t[0], t[1][0], t[1][1])),
     # both ends of the domain, the unix epoch, the datetime64[ns] limit (these sit next to the numeric thresholds of num2dt / np2dt)
     st.sampled_from([(1900, 1, 1), (1900, 1, 2), (2299, 12, 31), (2299, 12, 30), (1969, 12, 31), (1970, 1, 1), (2262, 4, 10), (2262, 4, 11), (2262, 4, 12)]),
@@ -309,15 +356,30 @@ def run_overflow(spec):
         exp = DT.fromordinal(first + d - 1)
         what = 'dt(%i, %i, %i)' % (y, m, d)
         _same(what, call(what, dt, y, m, d), exp)
-    cls = ['month<1' if m < 1 else 'month>12' if m > 12 else 'month_in_range']
+    # the same triples in other raw integer types (numpy int64 / int32, integer-valued python float / numpy float64, mixed within one call):
+    # every 16th day, the phase and the rotation of the types depend on (y, m)
+    import numpy as np
+    num = (np.int64, float, int, np.int32, np.float64)
+    for d in range(D_LO + (y * 85 + m) % 16, D_HI + 1, 16):
+        j = (d - D_LO) // 16 + y + m
+        args = [num[(j + i) % 5](v) for i, v in enumerate((y, m, d))]
+        if all(type(a) is int for a in args):
+            args[2] = np.int64(d)
+        exp = DT.fromordinal(first + d - 1)
+        what = 'dt(%s)' % ', '.join(repr(a) for a in args)
+        _same(what, call(what, dt, *args), exp)
+    cls = ['month<1' if m < 1 else 'month>12' if m > 12 else 'month_in_range', 'triples_in_mixed_raw_types']
     if yy != y:
         cls.append('other_year')
     if mm == 2:
         cls.append('february')
+        cls.append('february_leap_year' if _is_leap(yy) else 'february_non_leap_year')
+    if mm in (1, 12):
+        cls.append('normalised_month_is_jan_or_dec')
     return dict(nt=True, cls=cls)
 
 
-_overflow_case = st.tuples(_years, st.one_of(st.integers(M_LO, M_HI), st.sampled_from([M_LO, -12, -11, -1, 0, 1, 12, 13, 24, 25, M_HI]))).map(list)
+_overflow_case = st.tuples(_years, st.one_of(st.integers(M_LO, M_HI), st.sampled_from([M_LO, -12, -11, -1, 0, 1, 12, 13, 24, 25, M_HI, 2, 14, -10, -34]))).map(list)
 
 
 def enum_overflow(tier):
@@ -329,23 +391,179 @@ def enum_overflow(tier):
     return len(pairs), chunker
 
 
+# ----------------------------------------------------------------------------- several calls on the same objects (state carried between calls)
+
+TEXT_KINDS = ['dmy', 'dmy_hms', 'dmy_frac', 'mdy', 'mdy_hms', 'mdy_frac', 'iso', 'iso_hms', 'iso_frac', 'ymd8', 'name_dmy', 'name_dmy_hms', 'name_mdy', 'mon']
+OTHER_KINDS = ['int8', 'ord', 'date', 'datetime', 'ts', 'np_us', 'np_D', 'parts3', 'parts6', 'dt2str']
+NUMERIC_TEXT_KINDS = TEXT_KINDS[:6]     # the two leading fields are numbers: the dialect decides which is the day
+
+
+def _session_objects(spec):
+    """every spelling of the session is built ONCE; all calls of the session receive these very objects"""
+    import numpy as np
+    import pandas as pd
+    o, sec, us = spec['o'], spec['sec'], spec['us']
+    sep = SEPS[spec['sep']]
+    t = DT.fromordinal(o) + datetime.timedelta(seconds=sec, microseconds=us)
+    y, m, d, h, mi, s = t.year, t.month, t.day, t.hour, t.minute, t.second
+    hms = '%02d:%02d:%02d' % (h, mi, s)
+    frac = '%s.%06d' % (hms, us)
+    dmy = '%02d%s%02d%s%04d' % (d, sep, m, sep, y)
+    mdy = '%02d%s%02d%s%04d' % (m, sep, d, sep, y)
+    ymd_ = '%04d-%02d-%02d' % (y, m, d)
+    name = '%02d %s %04d' % (d, MONTHS[m - 1], y)
+    objs = dict(dmy=dmy, dmy_hms=dmy + ' ' + hms, dmy_frac=dmy + ' ' + frac, mdy=mdy, mdy_hms=mdy + ' ' + hms, mdy_frac=mdy + ' ' + frac,
+                iso=ymd_, iso_hms=ymd_ + 'T' + hms, iso_frac=ymd_ + 'T' + frac, ymd8='%04d%02d%02d' % (y, m, d),
+                name_dmy=name, name_dmy_hms=name + ' ' + hms, name_mdy='%s %02d, %04d' % (MONTHS[m - 1], d, y), mon='%02d-%s-%04d' % (d, MONTHS[m - 1][:3], y),
+                int8=y * 10000 + m * 100 + d, ord=o, date=datetime.date(y, m, d), datetime=t, ts=pd.Timestamp(t), np_us=np.datetime64(t, 'us'),
+                np_D=np.datetime64(DT(y, m, d), 'D'), parts3=(y, m, d), parts6=(y, m, d, h, mi, s), dt2str=t)
+    return t, objs
+
+
+def _session_expect(t, kind, dialect):
+    """single-call oracle: the datetime the statement demands for this spelling under this dialect, or None = must be rejected with ValueError"""
+    y, m, d = t.year, t.month, t.day
+    if kind in NUMERIC_TEXT_KINDS:
+        day_first = kind.startswith('dmy')
+        if day_first != (dialect == 'uk'):
+            # written in the other dialect: day > 12 is unambiguous and must be rejected; otherwise the text IS the right spelling of year-day-month
+            if d > 12:
+                return None
+            y, m, d = y, d, m
+        return DT(y, m, d) if kind in ('dmy', 'mdy') else DT(y, m, d, t.hour, t.minute, t.second, 0 if kind.endswith('_hms') else t.microsecond)
+    if kind in ('iso_frac', 'datetime', 'ts', 'np_us', 'dt2str'):
+        return t
+    if kind in ('iso_hms', 'name_dmy_hms', 'parts6'):
+        return t.replace(microsecond=0)
+    return DT(y, m, d)
+
+
+def run_session(spec):
+    from pyg_base import dt, ymd, dt2str
+    t, objs = _session_objects(spec)
+    # five fixed calls first (judged like any other): whatever "the previous call" left behind then comes from here and not from the case run before this one,
+    # so a failure further down is caused by the calls of this session and the shrunk replay file reproduces it in a fresh process
+    for f, exp, args, kw in ((dt, DT(1999, 6, 15, 1, 2, 3, 4), ('1999-06-15T01:02:03.000004',), {}), (dt, DT(1999, 6, 15), ('15-06-1999',), {}),
+                             (dt, DT(1999, 6, 15), ('06-15-1999',), dict(dialect='us')), (dt, DT(1999, 6, 15), (19990615,), {}), (ymd, DT(1999, 6, 15), ('15/06/1999 01:02:03',), {})):
+        what = '%s(%s%s) [opening calls of a session]' % (f.__name__, ', '.join(repr(a) for a in args), ''.join(', %s=%r' % i for i in kw.items()))
+        _same(what, call(what, f, *args, **kw), exp)
+    results = []
+    for kind, dialect, fname in spec['calls']:
+        x = objs[kind]
+        exp = _session_expect(t, kind, dialect)
+        swapped = kind in NUMERIC_TEXT_KINDS and kind.startswith('dmy') != (dialect == 'uk')
+        if not INCLUDE_UK_FRACTION_LOW_DAYS and kind.endswith('_frac') and t.day <= 12 and (kind.startswith('dmy') or swapped) and dialect == 'uk':
+            continue
+        f = dt if fname == 'dt' else ymd
+        args = x if kind.startswith('parts') else (x,)
+        if kind == 'dt2str':
+            text = call('dt2str(%r)' % x, dt2str, x)
+            check(isinstance(text, str), 'dt2str(%s) returned %s, not a string', x, text)
+            args = (text,)
+        kw = {} if dialect == 'uk' else dict(dialect='us')
+        what = '%s(%s%s) [call %i of the session]' % (fname, ', '.join(repr(a) for a in args), ''.join(', %s=%r' % i for i in kw.items()), len(results) + 1)
+        if exp is None:
+            must_raise(what + ' [string of the other dialect with day > 12]', ValueError, f, *args, **kw)
+        else:
+            if fname == 'ymd':
+                exp = DT(exp.year, exp.month, exp.day)
+            _same(what, call(what, f, *args, **kw), exp)
+        results.append((kind, dialect, fname, exp))
+    # ---- classes
+    cls = ['calls=%i' % len(results)]
+    by_kind = {}
+    for i, (kind, dialect, fname, exp) in enumerate(results):
+        by_kind.setdefault(kind, []).append((i, dialect, fname, exp))
+    ambiguous = t.day <= 12 and t.day != t.month
+    sub_day = bool(spec['sec'] or spec['us'])
+    nt = False
+    for kind, rows in by_kind.items():
+        if kind in TEXT_KINDS and len(set(r[1] for r in rows)) == 2:
+            cls.append('same_text_under_both_dialects')
+            if kind in NUMERIC_TEXT_KINDS:
+                cls.append('same_numeric_text_under_both_dialects')
+                cls.append('...first_dialect=' + rows[0][1])
+                if ambiguous:
+                    cls.append('...two_different_right_answers(day<=12,day!=month)')
+                    nt = True
+                if t.day > 12:
+                    rejected = [r[3] is None for r in rows]
+                    first_acc, first_rej = rejected.index(False), rejected.index(True)
+                    cls.append('...accepted_before_rejected' if first_acc < first_rej else '...rejected_before_accepted')
+                    if len(rows) >= 3 and rejected[0] == rejected[-1] and rejected[0] != rejected[1]:
+                        cls.append('...dialects_alternate_three_calls')
+                    nt = True
+        if any(a[1:3] == b[1:3] for j, a in enumerate(rows) for b in rows[j + 1:]):
+            cls.append('same_call_repeated')
+        fns = [r[2] for r in rows]
+        if sub_day and 'ymd' in fns and 'dt' in fns[fns.index('ymd'):] and kind not in ('dmy', 'mdy', 'iso', 'ymd8', 'name_dmy', 'name_mdy', 'mon', 'int8', 'ord', 'date', 'np_D', 'parts3'):
+            cls.append('ymd_before_dt_of_the_same_intraday_object')
+            nt = True
+    for a, b in (('dmy', 'dmy_hms'), ('dmy_hms', 'dmy_frac'), ('dmy', 'dmy_frac'), ('mdy', 'mdy_hms'), ('mdy_hms', 'mdy_frac'), ('mdy', 'mdy_frac'),
+                 ('iso', 'iso_hms'), ('iso_hms', 'iso_frac'), ('iso', 'iso_frac'), ('name_dmy', 'name_dmy_hms'), ('parts3', 'parts6')):
+        if a in by_kind and b in by_kind:
+            cls.append('one_spelling_is_a_prefix_of_another')
+            nt = nt or sub_day
+            break
+    return dict(nt=nt, cls=sorted(set(cls)))
+
+
+@st.composite
+def _session_case(draw):
+    """one instant; a pool of 1-3 spellings built once; 2-5 calls drawn from the pool (dialect and dt/ymd free), so that the same object is read repeatedly,
+    under both dialects, by both entry points, and next to spellings that extend it"""
+    o = draw(st.one_of(_day, _day, st.tuples(_years, st.integers(1, 12), st.integers(1, 12)).map(_ordinal), st.tuples(_years, st.integers(1, 12), st.integers(12, 14)).map(_ordinal)))
+    sec, us = draw(_time)
+    family = draw(st.sampled_from([['dmy', 'dmy_hms', 'dmy_frac'], ['mdy', 'mdy_hms', 'mdy_frac'], NUMERIC_TEXT_KINDS, NUMERIC_TEXT_KINDS, TEXT_KINDS, OTHER_KINDS, TEXT_KINDS + OTHER_KINDS,
+                                   ['iso', 'iso_hms', 'iso_frac'], ['parts3', 'parts6', 'int8', 'ymd8'], ['datetime', 'ts', 'np_us', 'iso_frac', 'dt2str', 'dmy_frac', 'mdy_frac']]))
+    pool = draw(st.lists(st.sampled_from(family), min_size=1, max_size=3))
+    n = draw(st.sampled_from([2, 2, 3, 3, 3, 4, 4, 5]))
+    pattern = draw(st.sampled_from(['alternate', 'alternate', 'flip_once', 'free', 'free']))
+    first = draw(st.sampled_from(['uk', 'us']))
+    flip_at = draw(st.integers(1, n - 1))
+    calls = []
+    for i in range(n):
+        if pattern == 'alternate':
+            dialect = first if i % 2 == 0 else {'uk': 'us', 'us': 'uk'}[first]
+        elif pattern == 'flip_once':
+            dialect = first if i < flip_at else {'uk': 'us', 'us': 'uk'}[first]
+        else:
+            dialect = draw(st.sampled_from(['uk', 'us']))
+        calls.append([draw(st.sampled_from(pool)), dialect, draw(st.sampled_from(['dt', 'dt', 'dt', 'ymd']))])
+    return dict(o=o, sec=sec, us=us, sep=draw(st.integers(0, 3)), calls=calls)
+
+
 _ORACLE = ('oracle: equality (and type datetime, tz-naive) with the python datetime built from the ordinal; ValueError demanded for day>12 strings in the other dialect; '
            'ymd = midnight of the day; dt(dt2str(t)) == t. ')
-_FORMATS = ('datetime, date, (y,m,d), (y,m,d,h), (y,m,d,h,mi), (y,m,d,h,mi,s), yyyymmdd int, ordinal, datetime64[D/h/m/s/ms/us/ns], pd.Timestamp (us and ns unit), '
-            "ISO with a 6-digit fraction / with a 1-5 and 7-9 digit fraction / with seconds / date only, 'yyyymmdd', three month-name spellings (+time, +upper/lower case), "
+_FORMATS = ('datetime, date, (y,m,d), (y,m,d,h), (y,m,d,h,mi), (y,m,d,h,mi,s), yyyymmdd int, ordinal, datetime64[D/h/m/s/ms/us/ns], pd.Timestamp (s, ms, us and ns unit), '
+            'the parts again with every number in another raw type (python int / numpy int64 / int32 / integer-valued float / numpy float64, rotating with the ordinal), yyyymmdd and ordinal as float / numpy float64, '
+            'three texts as numpy str_ (+ both rejections for day>12), '
+            "ISO with a 6-digit fraction / with a 1-5 and 7-9 digit fraction / with seconds / date only, 'yyyymmdd', four month-name spellings (+time, +upper/lower case), "
             'dd{sep}mm{sep}yyyy [hh:mm:ss[.f{1,6}]] uk and mm{sep}dd{sep}yyyy [hh:mm:ss[.f{1,6}]] us (also dialect="US") for 4 separators, '
-            'other-dialect strings for day>12, dt2str round trips, 9 ymd() calls (about 112 calls per day). ')
+            'other-dialect strings for day>12, dt2str round trips, 11 ymd() calls (about 130 calls per day). ')
 
 SUBS = [
     Sub('spellings', lambda tier: _day_case, run_day, quick=4000, thorough=30000,
         rule='(day, second of day, microsecond): day from 1900-2299 with boosted ambiguous region, 12/13 threshold, leap days, year/century boundaries; '
-             'time uniform plus boundary values. Per case: ' + _FORMATS + _ORACLE +
+             'month ends (28 Feb of non-leap years, 30th / 31st) boosted; time uniform plus boundary values. Per case: ' + _FORMATS + _ORACLE +
              'non-trivial = ambiguous day (day<=12, day!=month) or leap day or 1 Jan/31 Dec or 28 Feb/1 Mar of a century year; distinct = distinct spec',
         floor=0.3, class_floors={'ambiguous(day<=12,day!=month)': 0.2, 'day>12': 0.2, 'leap_day': 0.03, 'year_boundary': 0.03,
                                  'december': 0.04, 'microseconds': 0.3, 'midnight': 0.01,
                                  'subsecond_from_2243': 0.05, 'subsecond_ns_2107_to_limit': 0.15, 'subsecond_before_1970': 0.03,
                                  'short_fraction_informative': 0.35, 'whole_milliseconds': 0.02, 'only_microsecond=1': 0.01,
-                                 'last_microsecond_of_day': 0.01, 'hour=0_time!=0': 0.03}),
+                                 'last_microsecond_of_day': 0.01, 'hour=0_time!=0': 0.03,
+                                 'numbers_and_texts_in_mixed_raw_types': 0.3, 'month_end': 0.09, 'month_end_30th_or_31st': 0.035, '28feb_of_a_non_leap_year': 0.03}),
+    Sub('session', lambda tier: _session_case(), run_session, quick=3000, thorough=20000,
+        rule='state carried between calls: one instant (ambiguous days and the 12/13 threshold boosted), every spelling built ONCE, 2-5 calls of dt / ymd (dialect uk / us) on a pool of '
+             '1-3 of those very objects, so the same text is read under both dialects in either order, the same call is repeated, ymd() precedes dt() of the same object and '
+             'a text is read next to texts it is a prefix of. Every call is judged by the single-call oracle: numeric day/month texts read in the other dialect are '
+             'the right spelling of year-day-month when day <= 12 and must raise ValueError when day > 12; everything else as in spellings. '
+             'non-trivial = a numeric text under both dialects on a day with day != month, or ymd before dt of one intraday object, or prefix-related spellings with a time of day',
+        floor=0.15, class_floors={'same_text_under_both_dialects': 0.2, 'same_numeric_text_under_both_dialects': 0.14, '...first_dialect=uk': 0.07, '...first_dialect=us': 0.06,
+                                  '...two_different_right_answers(day<=12,day!=month)': 0.045, '...accepted_before_rejected': 0.04, '...rejected_before_accepted': 0.035,
+                                  '...dialects_alternate_three_calls': 0.02, 'same_call_repeated': 0.16, 'ymd_before_dt_of_the_same_intraday_object': 0.035,
+                                  'one_spelling_is_a_prefix_of_another': 0.025,
+                                  'calls=2': 0.13, 'calls=3': 0.11, 'calls=4': 0.06, 'calls=5': 0.025}),
     EnumSub('edge_years', enum_edge_years, run_day, chunks=8,
             rule='run in BOTH tiers: every day of the years %s (%i days: every month x day combination in leap and non-leap years, both ends of the domain, '
                  'the datetime64[ns] limit), time of day derived from the ordinal; same oracle as spellings' % (EDGE_YEARS, sum(366 if _is_leap(y) else 365 for y in EDGE_YEARS))),
@@ -355,5 +573,9 @@ SUBS = [
     EnumSub('overflow', enum_overflow, run_overflow, strategy=lambda tier: _overflow_case, quick=1500, chunks=64, floor=0.3,
             rule='(y, m) with y in [1900, 2299], m in [-36, 48]; each spec evaluates dt(y, m, d) for ALL 801 d in [-400, 400] against '
                  'datetime.fromordinal(ordinal of the 1st of the month reached by stepping m-1 months from January of y, + d - 1). '
-                 'thorough enumerates all 400 x 85 = 34000 (y, m) = 27 234 000 triples; every spec is non-trivial (days outside the month are always included)'),
+                 'thorough enumerates all 400 x 85 = 34000 (y, m) = 27 234 000 triples; every spec is non-trivial (days outside the month are always included). '
+                 'Every 16th day (phase from (y, m)) the triple is passed again as numpy int64 / int32 / integer-valued float / numpy float64, mixed within the call'),
 ]
+# class floors of the overflow sub-check (EnumSub takes none in its constructor); they hold for the sampled quick tier and for the complete enumeration
+# (7 of the 85 months normalise to February, 97 of 400 years are leap years)
+SUBS[-1].class_floors = {'triples_in_mixed_raw_types': 0.3, 'february': 0.045, 'february_leap_year': 0.01, 'february_non_leap_year': 0.035, 'normalised_month_is_jan_or_dec': 0.15}
